@@ -11,6 +11,14 @@ def M(pid, name, file, old, new, expect=None, count=1):
                         expect=expect, count=count))
 
 
+def MA(pid, name, file, scope, stmt, new, expect=None):
+    """AST-located edit: the statement in ``scope`` (dotted path of nested
+    defs/classes) whose ast.unparse equals ``stmt`` (prefix if it ends in
+    '...') is replaced by ``new`` (re-indented to the statement)."""
+    MUTANTS.append(dict(pid=pid, name=name, file=file, scope=scope,
+                        stmt=stmt, new=new, expect=expect))
+
+
 DIFF = 'odl/discr/diff_ops.py'
 # ---- C13 -------------------------------------------------------------------
 M('C13', 'symmetric_adjoint central sign', DIFF,
@@ -135,3 +143,97 @@ M('C20', 'SetUnion eq through membership again', 'odl/set/sets.py',
   "    def element(self, inp=None):\n"
   "        \"\"\"Create a new element.\n\n"
   "        First tries calling the first set", 'SetUnion.__eq__')
+
+# ---- C03 -------------------------------------------------------------------
+OPR = 'odl/operator/operator.py'
+DOP = 'odl/operator/default_ops.py'
+PROX = 'odl/solvers/nonsmooth/proximal_operators.py'
+M('C03', 'OperatorLeftScalarMult oop arm returns nothing', OPR,
+  "            return self.scalar * self.operator(x)\n        else:\n"
+  "            self.operator(x, out=out)\n            out *= self.scalar",
+  "            self.scalar * self.operator(x)\n        else:\n"
+  "            self.operator(x, out=out)\n            out *= self.scalar",
+  'OperatorLeftScalarMult._call')
+M('C03', 'OperatorVectorSum consumes out', OPR,
+  "        else:\n            self.operator(x, out=out)\n\n        out += self.vector",
+  "        else:\n            pass\n\n        out += self.vector",
+  'OperatorVectorSum._call')
+M('C03', 'OperatorComp returns temporary', OPR,
+  "            self.right(x, out=tmp)\n            return self.left(tmp, out=out)",
+  "            self.right(x, out=tmp)\n            return self.left(tmp)",
+  'OperatorComp._call')
+M('C03', 'Resampling returns the array alias again',
+  'odl/discr/discr_ops.py',
+  "                point_collocation(\n                    interpolator, self.range.meshgrid, out=out_arr\n                )\n            return out",
+  "                return point_collocation(\n                    interpolator, self.range.meshgrid, out=out_arr\n                )",
+  'Resampling._call')
+M('C03', 'ProximalL2 accumulates into out', PROX,
+  "                    out.lincomb(1.0 - step, x)\n",
+  "                    out.lincomb(1.0 - step, x, 1e-16, out)\n",
+  'ProximalL2._call')
+M('C03', 'default in-place bridge drops the result', OPR,
+  "    out.assign(op.range.element(op._call_out_of_place(x, **kwargs)))",
+  "    op.range.element(op._call_out_of_place(x, **kwargs))",
+  '_default_call_in_place')
+M('C03', 'Divergence first axis accumulates', DIFF,
+  "                if axis == 0:\n                    out_arr[:] = tmp",
+  "                if axis == 1:\n                    out_arr[:] = tmp",
+  'Divergence._call')
+# ---- C10 -------------------------------------------------------------------
+M('C10', 'OperatorSum without temporary', OPR,
+  "            self.left(x, out=tmp)\n            self.right(x, out=out)\n            out += tmp\n\n    def derivative(self, x):\n        \"\"\"Return the operator derivative at ``x``.\n\n        The derivative of a sum",
+  "            self.left(x, out=out)\n            tmp = self.right(x)\n            out += tmp\n\n    def derivative(self, x):\n        \"\"\"Return the operator derivative at ``x``.\n\n        The derivative of a sum",
+  'OperatorSum._call')
+M('C10', 'OperatorRightScalarMult temporary taken from out', OPR,
+  "                tmp = self.domain.element()\n            tmp.lincomb(self.scalar, x)\n            self.operator(tmp, out=out)",
+  "                tmp = out\n            tmp.lincomb(self.scalar, x)\n            self.operator(x, out=out)",
+  'OperatorRightScalarMult._call')
+M('C10', 'ProximalL1 copy regression', PROX,
+  "            if x is out:\n                # Handle aliased `x` and `out` (original `x` needed later)\n                x = x.copy()\n\n            # diff = x - g\n            if g is not None:\n                diff = x - g\n            else:\n                diff = x\n\n            # We write the operator as\n            # x - (x - g) / max(|x - g| / sig*lam, 1)",
+  "            # diff = x - g\n            if g is not None:\n                diff = x - g\n            else:\n                diff = x\n\n            # We write the operator as\n            # x - (x - g) / max(|x - g| / sig*lam, 1)",
+  'ProximalL1._call')
+M('C10', 'ProximalLInfty copy dropped', PROX,
+  "            if x is out:\n                x = x.copy()\n\n            proj_l1(x, radius, out)",
+  "            proj_l1(x, radius, out)", 'ProximalLInfty._call')
+
+MA('C03', 'ScalingOperator in-place arm scales the input', DOP,
+   'ScalingOperator._call', 'out.lincomb(self.scalar, x)',
+   'x *= self.scalar\nout.assign(x)', 'ScalingOperator._call')
+MA('C03', 'range test on out moved after the dispatch', OPR,
+   'Operator.__call__', 'if out is not None:...',
+   '''if out is not None:
+    if self.is_functional:
+        raise TypeError('`out` parameter cannot be used')
+    result = self._call_in_place(x, out=out, **kwargs)
+    if out not in self.range:
+        raise OpRangeError('bad out')
+    if result is not None and result is not out:
+        raise ValueError('`op` returned a different value than `out`.')
+else:
+    out = self._call_out_of_place(x, **kwargs)
+    if out not in self.range:
+        try:
+            out = self.range.element(out)
+        except (TypeError, ValueError):
+            raise OpRangeError('unable to cast')''', 'Operator.__call__')
+MA('C03', 'return-identity test dropped', OPR, 'Operator.__call__',
+   'if result is not None and result is not out:...', '',
+   'Operator.__call__')
+MA('C03', 'domain cast dropped', OPR, 'Operator.__call__',
+   'if x not in self.domain:...', '', 'Operator.__call__')
+MA('C03', 'MultiplyOperator multiplies the input in place', DOP,
+   'MultiplyOperator._call', 'return x * self.multiplicand',
+   'x *= self.multiplicand\nreturn x', 'MultiplyOperator._call')
+MA('C03', 'ComplexEmbedding writes only the real part', DOP,
+   'ComplexEmbedding._call', 'out.imag = self.scalar.imag * x', '',
+   'ComplexEmbedding._call')
+MA('C10', 'ProximalConvexConjL1 copy dropped', PROX,
+   'proximal_convex_conj_l1.ProximalConvexConjL1._call',
+   'diff = x.copy()', 'diff = x', 'ProximalConvexConjL1._call')
+MA('C10', 'ProximalConvexConjKL copy dropped', PROX,
+   'proximal_convex_conj_kl.ProximalConvexConjKL._call',
+   'x = x.copy()', '', 'ProximalConvexConjKL._call')
+MA('C10', 'ProximalL2Squared aliased arm writes out first', PROX,
+   'proximal_l2_squared.ProximalL2Squared._call',
+   'if x is out:...', 'sig.multiply(2 * lam * g, out=out)\nout.lincomb(1, x, 1, out)',
+   'ProximalL2Squared._call')
